@@ -13,6 +13,7 @@ import PoetryVerif.Proofs.VRangeSep
 import PoetryVerif.Proofs.VRangeInv
 import PoetryVerif.Proofs.VRangeSepV
 import PoetryVerif.Proofs.VRangeInterU
+import PoetryVerif.Proofs.VRangeDiffU
 
 set_option linter.unusedSimpArgs false
 set_option linter.unusedVariables false
@@ -496,11 +497,97 @@ example : UnionOK exU ∧ VC.excludedSingleVersion exU = .ok (some (Version.mk' 
 
 /-! ## the property at full strength -/
 
-/-- C05 for arbitrary constraints (unions included), with the carve-out of the known finding.  Proved above:
-every non-union case of `intersect` (defined + exact), the non-union cases of `union` and `difference`
-(exact whenever they return, under the named hypotheses), `VersionUnion.of` membership preservation, the
-empty/universal laws and commutativity.  Not proved: totality of `VersionUnion.of` and of the union-level
-merge walks (`unionIntersectLoop`, `unionDiffLoop`, `rngDiffUnionLoop`) and their exactness. -/
+/-- **C05 for arbitrary constraints (unions included) in the regular setting.**  Extra hypothesis (named):
+`RegB B` — the bounds mentioned by the two constraints are mutually regular (any two are equal or of different
+releases) and none is a local build (the known finding "local-min-intersect" needs a local lower bound, so no
+carve-out is needed here).  Then intersection, union and difference are *defined* (no `AssertionError`,
+`RecursionError`, `IndexError`, fuel exhaustion), *closed* (each result is again a well-formed constraint over
+regular members, so the theorem applies to it), and *exact* with the real `allows` on every side: a regular probe
+is admitted by the result iff (a and b), (a or b), (a and not b) respectively. -/
+theorem C05_regular_partial {B : List Version} (hB : RegB B) (a b : VC) (ha : a.WF) (hb : b.WF)
+    (hma : ∀ c ∈ a.flatten, RegMember B c) (hmb : ∀ c ∈ b.flatten, RegMember B c) :
+    ∃ i u d, VC.intersect a b = .ok i ∧ VC.unionWith a b = .ok u ∧ VC.difference a b = .ok d ∧
+      (i.WF ∧ ∀ c ∈ i.flatten, RegMember B c) ∧ (u.WF ∧ ∀ c ∈ u.flatten, RegMember B c) ∧
+      (d.WF ∧ ∀ c ∈ d.flatten, RegMember B c) ∧
+      ∀ p, p.wf = true → Regular (boundsOf a.flatten ++ boundsOf b.flatten) p →
+        ∃ pa pb, a.allows p = .ok pa ∧ b.allows p = .ok pb ∧
+          i.allows p = .ok (pa && pb) ∧ u.allows p = .ok (pa || pb) ∧ d.allows p = .ok (pa && !pb) := by
+  obtain ⟨i, i1, i2, i3, i4⟩ := VC.intersect_reg hB a b ha hb hma hmb
+  obtain ⟨u, u1, u2, u3, u4⟩ := VC.unionWith_reg hB a b ha hb hma hmb
+  obtain ⟨d, d1, d2, d3, d4⟩ := VC.difference_reg hB a b ha hb hma hmb
+  refine ⟨i, u, d, i1, u1, d1, ⟨i2, i3⟩, ⟨u2, u3⟩, ⟨d2, d3⟩, fun p hp hreg => ?_⟩
+  refine ⟨_, _, VC.allows_of_reg hB a ha hma p, VC.allows_of_reg hB b hb hmb p, ?_, ?_, ?_⟩
+  · rw [VC.allows_of_reg hB i i2 i3 p, i4 p hp hreg]
+  · rw [VC.allows_of_reg hB u u2 u3 p, u4 p hp hreg]
+  · rw [VC.allows_of_reg hB d d2 d3 p, d4 p hp hreg]
+
+def rV1 : Version := Version.mk' 0 [1, 0] none none none none
+def rV2 : Version := Version.mk' 0 [2] none none (some ⟨.dev, 0⟩) none
+def rU : List RC := [.rng ⟨none, some rV1, false, false⟩, .rng ⟨some rV2, none, true, false⟩]
+
+/-- the hypotheses are met, e.g., by `<1.0 || >=2.dev0` over the bounds `[1.0, 2.dev0]` -/
+example : RegB [rV1, rV2] ∧ (VC.union rU).WF ∧ ∀ c ∈ (VC.union rU).flatten, RegMember [rV1, rV2] c := by
+  have hreg : RegB [rV1, rV2] := by
+    refine ⟨?_, ?_⟩
+    · intro x hx y hy
+      simp only [List.mem_cons, List.mem_nil_iff, or_false] at hx hy
+      rcases hx with rfl | rfl <;> rcases hy with rfl | rfl
+      · exact Or.inl rfl
+      · exact Or.inr (by decide)
+      · exact Or.inr (by decide)
+      · exact Or.inl rfl
+    · intro e he
+      simp only [List.mem_cons, List.mem_nil_iff, or_false] at he
+      rcases he with rfl | rfl <;> rfl
+  have m1 : RegMember [rV1, rV2] (.rng ⟨none, some rV1, false, false⟩) := by
+    refine ⟨⟨?_, ?_⟩, ⟨fun _ => rfl, fun h => by simp at h⟩, by show VRange.isStrictlyLower _ _ = false; decide, ?_⟩
+    · intro e he; simp [VRange.bounds] at he; subst he; decide
+    · intro m M hm; simp at hm
+    · intro e he; simp [RC.bounds, RC.view, VRange.bounds, RC.min, RC.max] at he; subst he; simp
+  have m2 : RegMember [rV1, rV2] (.rng ⟨some rV2, none, true, false⟩) := by
+    refine ⟨⟨?_, ?_⟩, ⟨fun h => by simp at h, fun _ => rfl⟩, by show VRange.isStrictlyLower _ _ = false; decide, ?_⟩
+    · intro e he; simp [VRange.bounds] at he; subst he; decide
+    · intro m M hm hM; simp at hM
+    · intro e he; simp [RC.bounds, RC.view, VRange.bounds, RC.min, RC.max] at he; subst he; simp
+  refine ⟨hreg, ⟨by simp [rU], ?_, ?_, ?_⟩, ?_⟩
+  · intro c hc
+    simp only [rU, List.mem_cons, List.mem_nil_iff, or_false] at hc
+    rcases hc with rfl | rfl
+    · exact ⟨m1.1, m1.2.2.1⟩
+    · exact ⟨m2.1, m2.2.2.1⟩
+  · simp only [SortedRC, rU, List.pairwise_cons, List.mem_singleton, forall_eq, List.not_mem_nil, false_implies,
+      implies_true, List.Pairwise.nil, and_true]
+    decide
+  · exact ⟨⟨by decide, by decide⟩, trivial⟩
+  · intro c hc
+    simp only [VC.flatten, rU, List.mem_cons, List.mem_nil_iff, or_false] at hc
+    rcases hc with rfl | rfl
+    · exact m1
+    · exact m2
+
+/-- in the regular setting intersection and union are commutative up to admitted versions -/
+theorem C05_regular_comm {B : List Version} (hB : RegB B) (a b : VC) (ha : a.WF) (hb : b.WF)
+    (hma : ∀ c ∈ a.flatten, RegMember B c) (hmb : ∀ c ∈ b.flatten, RegMember B c) :
+    ∃ i i' u u', VC.intersect a b = .ok i ∧ VC.intersect b a = .ok i' ∧ VC.unionWith a b = .ok u ∧
+      VC.unionWith b a = .ok u' ∧
+      ∀ p, p.wf = true → Regular (boundsOf a.flatten ++ boundsOf b.flatten) p →
+        i.allows p = i'.allows p ∧ u.allows p = u'.allows p := by
+  obtain ⟨i, _, _, i1, u1, _, ⟨i2, i3⟩, ⟨u2, u3⟩, _, hab⟩ := C05_regular_partial hB a b ha hb hma hmb
+  obtain ⟨i', _, _, j1, v1, _, ⟨j2, j3⟩, ⟨v2, v3⟩, _, hba⟩ := C05_regular_partial hB b a hb ha hmb hma
+  refine ⟨i, i', _, _, i1, j1, u1, v1, fun p hp hreg => ?_⟩
+  obtain ⟨pa, pb, e1, e2, e3, e4, _⟩ := hab p hp hreg
+  obtain ⟨qb, qa, f1, f2, f3, f4, _⟩ := hba p hp (hreg.mono (by
+    intro e he; simp only [List.mem_append] at he ⊢; exact he.symm))
+  rw [e1] at f2; rw [e2] at f1
+  cases f1; cases f2
+  exact ⟨by rw [e3, f3, Bool.and_comm], by rw [e4, f4, Bool.or_comm]⟩
+
+/-- C05 for arbitrary constraints (unions included), with the carve-out of the known finding.  Proved: this
+statement under the extra hypothesis `RegB` (bounds mutually regular, none local): `C05_regular_partial`; without
+it: every non-union case of `intersect` (defined + exact), the non-union cases of `union` and `difference` under
+the named hypotheses, `VersionUnion.of` membership preservation, the union ∩ walk, the empty/universal laws and
+commutativity.  Not proved without `RegB`: the union-level results for bounds that are local builds or irregular
+for each other (e.g. `<2.0 || >=2.0a1`). -/
 def C05_full_statement : Prop :=
   ∀ a b : VC, a.WF → b.WF →
     (∀ r x, RC.rng r ∈ a.flatten ++ b.flatten → RC.ver x ∈ a.flatten ++ b.flatten → ¬ RC.LocalMinCase r x) →
